@@ -20,6 +20,9 @@ CLAIMS = {
  "C02": ("Tokens.tla acceptance rule model-checked as a mint/tick/revoke/forge/present system (MC_Tokens); every forged-cookie class replayed through real TUNNEL_CREATE exchanges on both transports and "
          "the cookie universe (all single-character substitutions and bit flips of a minted token, ladders around the leeway, IdP conditions, random strings) presented to the real CheckPAACookie; TLC judges every presentation.",
          "DESIGN.md §4 C02", "TLC design check of symbolic tokens; forged cookies replayed on the real gateway and the exported check; TLC trace validation"),
+ "C05": ("Front.tla (ShouldReach, Challenges) model-checked over every startable mechanism set x request class; one real binary per startable subset with the real rdpgw-auth behind it; 27 Authorization classes x HTTP methods "
+         "incl. genuine NTLM exchanges on one or two connections; whether and as whom the tunnel handler was reached comes from the gw.enter hook; TLC judges every request. SPNEGO is exercised negatively only.", "DESIGN.md §4 C05",
+         "TLC-enumerated mechanism sets on the real binary + auth service; TLC trace validation"),
  "C06": ("Relay.tla (both directions, declared vs carried lengths, liveness) model-checked; every environment action sequence of its state graph replayed on an open channel of the real binary with "
          "boundary payload sizes over both transports; host-side bytes and client-side DATA packets compared with PRNG streams; TLC judges each action (RelayTrace).", "DESIGN.md §4 C06",
          "TLC design check of the relay; model-generated interleavings replayed on the real gateway; TLC trace validation"),
